@@ -111,15 +111,26 @@ def id_pairs(w):
     return out
 
 
-def run_case(R, level, op, fault, k, delta, step_seed, prime, err=None, base=1_700_000_000.0):
+VIA = [False]  # set by run(): community clients reach their credentials through configure()
+
+
+def run_case(R, level, op, fault, k, delta, step_seed, prime, err=None, base=1_700_000_000.0, via=None):
     import random
+
+    if via is None and VIA[0] and level in ("v1", "v2c"):
+        # the client was created for the OTHER community-based version with the same
+        # community string and switched by configure(): it must speak (and demand) the
+        # version of its current credentials
+        via = ["configure", "v2c" if level == "v1" else "v1", "same"]
 
     if level == "v1" and op in ("bulkget", "bulkwalk", "bulktable"):
         return
-    case = {"level": level, "op": op, "fault": fault, "k": k, "delta": delta, "step_seed": step_seed, "prime": prime, "err": err, "base": base}
+    case = {"level": level, "op": op, "fault": fault, "k": k, "delta": delta, "step_seed": step_seed, "prime": prime, "err": err, "base": base, "via": via}
     agent_clock = env.Clock()
     env.CLOCK.freeze(base)
-    w = World(level, DB, clock=agent_clock)
+    w = World(level, DB, clock=agent_clock, via=tuple(via) if via else None)
+    if via:
+        R.mon["clients_switched_between_community_versions"] += 1
     if prime:
         w.prime()
     w.seam.budget = 60
@@ -269,6 +280,7 @@ def run(R):
         if not R.time_left():
             break
         rng = R.rng(i)
+        VIA[0] = i % 4 == 1
         op = OPS[i % len(OPS)]
         level = levels[(i // len(OPS)) % len(levels)]
         v3 = level.startswith("v3")
@@ -292,6 +304,7 @@ def run(R):
     if R.shard == 0:
         # SNMPv1 ends a walk with an ERROR response (noSuchName): that response, too,
         # must pass the community / version / request-id checks before it ends anything
+        VIA[0] = False
         for op in ("walk", "multiwalk", "table"):
             for fault, delta in (("community", 1), ("community", -1), ("version", 1), ("version", -1), ("rid", 1), ("rid", ("abs", 0))):
                 for k in (1, 2):
@@ -301,5 +314,5 @@ def run(R):
 
 def replay(R, v):
     c = v["case"]
-    run_case(R, c["level"], c["op"], c["fault"], c["k"], c["delta"], c["step_seed"], c["prime"], c.get("err"), c.get("base", 1_700_000_000.0))
+    run_case(R, c["level"], c["op"], c["fault"], c["k"], c["delta"], c["step_seed"], c["prime"], c.get("err"), c.get("base", 1_700_000_000.0), via=c.get("via") or False)
     budget.MONITOR.off()
